@@ -139,6 +139,9 @@ func vcRunC06(t *vcTrial, cfg vc06Cfg) {
 			time.Sleep(time.Duration(cfg.OnConnectUs) * time.Microsecond)
 		}
 	}
+	handlerErrPct := []int{0, 0, 30, 100}[r.intn(4)]
+	errHandler := fmt.Errorf("verif: the handler reports an error (it has consumed its request)")
+	t.P("handler_error_pct", handlerErrPct)
 	so.OnRequest = func(ctx context.Context, rec *vcConnRec) error {
 		if !atomic.CompareAndSwapInt32(&inHandler, 0, 1) {
 			t.Violate("C06", "overlap", "two OnRequest invocations overlap on one connection")
@@ -199,6 +202,10 @@ func vcRunC06(t *vcTrial, cfg vc06Cfg) {
 			}
 		}
 		rd.Release()
+		if hr.chance(handlerErrPct) {
+			// what the handler returns is none of netpoll's business: input goes on being offered
+			return errHandler
+		}
 		return nil
 	}
 	srv, err := vcStartServer(so)
